@@ -20,7 +20,7 @@ import queue as _queue
 import threading
 import time
 
-RUNNABLE, BLOCKED_GET, BLOCKED_JOIN, BLOCKED_COND, DONE = "RUNNABLE", "BLOCKED_GET", "BLOCKED_JOIN", "BLOCKED_COND", "DONE"
+RUNNABLE, BLOCKED_GET, BLOCKED_PUT, BLOCKED_JOIN, BLOCKED_COND, DONE = "RUNNABLE", "BLOCKED_GET", "BLOCKED_PUT", "BLOCKED_JOIN", "BLOCKED_COND", "DONE"
 NONTERM_STEPS = 200
 
 
@@ -106,9 +106,16 @@ class Scheduler:
                     out.append((st, "run"))
                 elif st.may_time_out:
                     out.append((st, "timeout"))
+            elif st.status == BLOCKED_PUT:
+                if len(st.queue._items) < st.queue.maxsize:
+                    out.append((st, "run"))
+                elif st.may_time_out:
+                    out.append((st, "timeout"))
             elif st.status == BLOCKED_JOIN:
                 if st.join_target.status == DONE:
                     out.append((st, "run"))
+                elif st.may_time_out:
+                    out.append((st, "timeout"))
             elif st.status == BLOCKED_COND:
                 if st.cond():
                     out.append((st, "run"))
@@ -124,7 +131,7 @@ class Scheduler:
         d = []
         for st in self.states:
             e = {"thread": st.name, "status": st.status}
-            if st.status == BLOCKED_GET:
+            if st.status in (BLOCKED_GET, BLOCKED_PUT):
                 e["waiting_on_queue_of"] = st.queue.owner
                 e["timeout"] = st.may_time_out
             if st.status == BLOCKED_JOIN:
@@ -222,18 +229,25 @@ class Scheduler:
             me.status = RUNNABLE
             me.cond = None
 
-    def join(self, st_target):
+    def join(self, st_target, may_time_out=False):
+        """-> True when the target is DONE, False when a join(timeout=..) timed out (a scheduling decision)."""
         me = self.me()
         if st_target.status != DONE:
             me.status = BLOCKED_JOIN
             me.join_target = st_target
+            me.may_time_out = may_time_out
+            me.timeout_fired = False
             try:
                 self._switch(me)
             finally:
                 me.status = RUNNABLE
                 me.join_target = None
-        else:
-            self.yield_point("join")
+            if me.timeout_fired:
+                me.timeout_fired = False
+                return st_target.status == DONE
+            return True
+        self.yield_point("join")
+        return True
 
     def join_all(self):
         """Harness (main) thread: wait, in scheduled fashion, for every other managed thread."""
@@ -252,6 +266,7 @@ class SchedQueue:
 
     def __init__(self, maxsize=0):
         self.sched = SchedQueue.current_scheduler
+        self.maxsize = maxsize if maxsize and maxsize > 0 else 0
         self._items = []
         self._plain = threading.Lock()
         self.owner = None  # name of the worker whose inbox this is (filled in lazily)
@@ -266,6 +281,24 @@ class SchedQueue:
         if self._managed():
             s = self.sched
             s.yield_point("put")
+            me = s.me()
+            while self.maxsize and len(self._items) >= self.maxsize:
+                # a bounded queue that is full: the put blocks (or fails) exactly as queue.Queue's would
+                if not block:
+                    raise _queue.Full
+                me.status = BLOCKED_PUT
+                me.queue = self
+                me.may_time_out = timeout is not None
+                me.timeout_fired = False
+                try:
+                    s._switch(me)
+                finally:
+                    me.status = RUNNABLE
+                    me.queue = None
+                if me.timeout_fired:
+                    me.timeout_fired = False
+                    if len(self._items) >= self.maxsize:
+                        raise _queue.Full
             with s.mutex:
                 self._items.append(item)
                 s.puts += 1
@@ -276,6 +309,8 @@ class SchedQueue:
                 hook(self, item)
             return
         with self._plain:
+            if self.maxsize and len(self._items) >= self.maxsize:
+                raise _queue.Full
             self._items.append(item)
 
     def put_nowait(self, item):
@@ -321,6 +356,9 @@ class SchedQueue:
 
     def get_nowait(self):
         return self.get(block=False)
+
+    def full(self):
+        return bool(self.maxsize) and len(self._items) >= self.maxsize
 
     def empty(self):
         return not self._items
